@@ -410,6 +410,10 @@ fn main() {
         std::process::exit(2);
     }
     mc_core::run::tune_malloc();
+    mc_core::run::install_panic_hook();
+    if std::env::var_os("VERIF_ASAN").is_none() {
+        mc_core::alloc::set_default_poison(0xA5);
+    }
     let (cs, items) = cases(&a[2]);
     if a[1] == "desc" {
         let i: usize = a[3].parse().expect("index");
